@@ -6,6 +6,7 @@
 #include "common.hpp"
 #include <deque>
 #include <memory>
+#include <thread>
 
 struct Ctx {
   SpyAllocator spy;
@@ -97,6 +98,9 @@ static std::string runOp(Ctx& c, const std::vector<std::string>& a) {
   if (op == "dcopy") { *c.docs[std::stoul(a[1])] = *c.docs[std::stoul(a[2])]; return "-"; }
   if (op == "dswap") { swap(*c.docs[std::stoul(a[1])], *c.docs[std::stoul(a[2])]); return "-"; }
   if (op == "dshrink") { c.docs[std::stoul(a[1])]->shrinkToFit(); return "-"; }
+  if (op == "dmove") { *c.docs[std::stoul(a[1])] = std::move(*c.docs[std::stoul(a[2])]); return "-"; }
+  if (op == "dcopyctor") { JsonDocument tmp(*c.docs[std::stoul(a[2])]); std::string d1 = dump(tmp.as<JsonVariantConst>());
+                           return d1 == dump(c.docs[std::stoul(a[2])]->as<JsonVariantConst>()) ? "-" : "COPYCTOR-DIFFERS"; }
   if (op == "deser") {
     std::string text = unhex(a[2]);
     size_t h = std::stoul(a[1]);
@@ -107,77 +111,98 @@ static std::string runOp(Ctx& c, const std::vector<std::string>& a) {
   return "?";
 }
 
+// runs one history; `shared` (may be null): a document all threads read through const access, used as copy
+// source and as filter after every step
+static std::string runHistory(size_t nd, int kind, const std::string& fs, const std::string& rest, bool defaultAlloc,
+                              const JsonDocument* shared, unsigned yieldSeed) {
+  Ctx c;
+  c.kind = kind;
+  if (fs != "-") {
+    if (fs.back() == '+') c.spy.fail_from = std::stol(fs.substr(0, fs.size() - 1));
+    else { size_t k = std::stoul(fs); c.spy.fail.assign(k + 1, false); c.spy.fail[k] = true; }
+  }
+  std::string out;
+  {
+    for (size_t i = 0; i < nd; i++) c.docs.emplace_back(defaultAlloc ? new JsonDocument() : new JsonDocument(&c.spy));
+    c.handles.resize(nd);
+    for (size_t i = 0; i < nd; i++) c.handles[i] = JsonVariant(*c.docs[i]);
+    size_t pos = 0;
+    unsigned rs = yieldSeed;
+    while (pos < rest.size()) {
+      size_t e = rest.find(" ;; ", pos);
+      std::string stepTxt = rest.substr(pos, e == std::string::npos ? std::string::npos : e - pos);
+      pos = e == std::string::npos ? rest.size() : e + 4;
+      size_t hh = stepTxt.find(" ## ");
+      if (hh != std::string::npos) stepTxt = stepTxt.substr(0, hh);
+      if (stepTxt.find_first_not_of(' ') == std::string::npos) continue;
+      std::vector<std::string> a = split(stepTxt);
+      std::string watch = a.back().substr(1);
+      a.pop_back();
+      if (!a.empty() && a.back()[0] == '%') a.pop_back();    // generator's note (unrelated handles), not for us
+      size_t callsBefore = c.spy.calls;
+      std::string res = runOp(c, a);
+      std::string docs;
+      for (size_t i = 0; i < nd; i++) docs += (i ? "|" : "") + dump(c.docs[i]->as<JsonVariantConst>());
+      std::string hd;
+      std::istringstream ws(watch);
+      std::string tok;
+      bool first = true;
+      while (std::getline(ws, tok, ',')) {
+        if (tok.empty()) continue;
+        size_t hi = std::stoul(tok);
+        if (hi >= c.handles.size()) continue;
+        hd += (first ? "" : ",") + tok + "=" + dump(c.handles[hi]);
+        first = false;
+      }
+      std::string ov;
+      for (size_t i = 0; i < nd; i++) ov += c.docs[i]->overflowed() ? '1' : '0';
+      out += res + "|" + docs + "|" + hd + " ~" + ov + "~" + std::to_string(callsBefore) + "~" + std::to_string(c.spy.calls) + "~" + std::to_string(c.spy.live.size());
+      if (shared) {
+        // const access to the shared document: copy it, and use a part of it as a filter
+        JsonDocument tmp;
+        tmp.set(shared->as<JsonVariantConst>());
+        JsonDocument tmp2;
+        JsonVariantConst fv = shared->as<JsonVariantConst>()["filter"];
+        deserializeJson(tmp2, "{\"a\":[1,2,{\"b\":3.5}],\"c\":\"text\",\"d\":null}", DeserializationOption::Filter(fv));
+        std::string js;
+        serializeJson(tmp, js);
+        out += "~S" + std::to_string(js.size()) + ":" + dump(tmp2.as<JsonVariantConst>());
+        bool eq = tmp.as<JsonVariantConst>() == shared->as<JsonVariantConst>();
+        if (!eq) out += "!SHAREDCOPY";
+      }
+      out += " ;; ";
+      if (yieldSeed) { rs = rs * 1103515245u + 12345u; if ((rs >> 16) % 3 == 0) std::this_thread::yield(); }
+    }
+    // read-only operations must not call the allocator
+    size_t before = c.spy.log.size();
+    for (size_t i = 0; i < nd; i++) {
+      std::string s; serializeJson(*c.docs[i], s); measureMsgPack(*c.docs[i]); c.docs[i]->nesting(); c.docs[i]->size();
+      (void)c.docs[i]->as<JsonVariantConst>()["a"].is<int>();
+    }
+    if (c.spy.log.size() != before) out += "READONLY-ALLOCATES ;; ";
+    c.handles.clear();
+    // clear(): everything goes back to the allocator; the document then works again
+    for (size_t i = 0; i < nd; i++) c.docs[i]->clear();
+    out += "afterclear=" + std::to_string(c.spy.live.size()) + " ";
+    c.spy.fail.clear(); c.spy.fail_from = -1;
+    for (size_t i = 0; i < nd; i++) {
+      (*c.docs[i])["k"] = "v";
+      if ((*c.docs[i])["k"] != "v" || c.docs[i]->overflowed()) out += "NOT-REUSABLE ";
+    }
+    c.docs.clear();
+  }
+  out += "leaked=" + std::to_string(c.spy.live.size()) + (c.spy.misuse ? " MISUSE" : "") + " calls=" + std::to_string(c.spy.calls);
+  return out;
+}
+
+#ifndef HIST_NO_MAIN
 static std::string handle(const std::vector<std::string>& a0, const std::string& line) {
   if (a0[0] == "CFG") return a0[1] == cfgString() ? "cfg" : "cfg-mismatch " + cfgString();
   // HRUN <ndocs> <kind> <failspec> <history: op @watch ## expected ;; ...>
   if (a0[0] == "HRUN") {
-    Ctx c;
-    size_t nd = std::stoul(a0[1]);
-    c.kind = std::stoi(a0[2]);
-    const std::string& fs = a0[3];
-    if (fs != "-") {
-      if (fs.back() == '+') c.spy.fail_from = std::stol(fs.substr(0, fs.size() - 1));
-      else { size_t k = std::stoul(fs); c.spy.fail.assign(k + 1, false); c.spy.fail[k] = true; }
-    }
-    std::string out;
-    {
-      for (size_t i = 0; i < nd; i++) c.docs.emplace_back(new JsonDocument(&c.spy));
-      c.handles.resize(nd);
-      for (size_t i = 0; i < nd; i++) c.handles[i] = JsonVariant(*c.docs[i]);
-      // split the rest of the line into steps
-      size_t p = line.find(' ');
-      for (int k = 0; k < 3; k++) p = line.find(' ', p + 1);
-      std::string rest = line.substr(p + 1);
-      size_t pos = 0;
-      while (pos < rest.size()) {
-        size_t e = rest.find(" ;; ", pos);
-        std::string stepTxt = rest.substr(pos, e == std::string::npos ? std::string::npos : e - pos);
-        pos = e == std::string::npos ? rest.size() : e + 4;
-        size_t hh = stepTxt.find(" ## ");
-        if (hh != std::string::npos) stepTxt = stepTxt.substr(0, hh);
-        if (stepTxt.find_first_not_of(' ') == std::string::npos) continue;
-        std::vector<std::string> a = split(stepTxt);
-        std::string watch = a.back().substr(1);
-        a.pop_back();
-        size_t callsBefore = c.spy.calls;
-        std::string res = runOp(c, a);
-        std::string docs;
-        for (size_t i = 0; i < nd; i++) docs += (i ? "|" : "") + dump(c.docs[i]->as<JsonVariantConst>());
-        std::string hd;
-        std::istringstream ws(watch);
-        std::string tok;
-        bool first = true;
-        while (std::getline(ws, tok, ',')) {
-          if (tok.empty()) continue;
-          size_t hi = std::stoul(tok);
-          if (hi >= c.handles.size()) continue;
-          hd += (first ? "" : ",") + tok + "=" + dump(c.handles[hi]);
-          first = false;
-        }
-        std::string ov;
-        for (size_t i = 0; i < nd; i++) ov += c.docs[i]->overflowed() ? '1' : '0';
-        out += res + "|" + docs + "|" + hd + " ~" + ov + "~" + std::to_string(callsBefore) + "~" + std::to_string(c.spy.calls) + " ;; ";
-      }
-      // read-only operations must not call the allocator
-      size_t before = c.spy.log.size();
-      for (size_t i = 0; i < nd; i++) {
-        std::string s; serializeJson(*c.docs[i], s); measureMsgPack(*c.docs[i]); c.docs[i]->nesting(); c.docs[i]->size();
-        (void)c.docs[i]->as<JsonVariantConst>()["a"].is<int>();
-      }
-      if (c.spy.log.size() != before) out += "READONLY-ALLOCATES ;; ";
-      c.handles.clear();
-      // clear(): everything goes back to the allocator; the document then works again
-      for (size_t i = 0; i < nd; i++) c.docs[i]->clear();
-      out += "afterclear=" + std::to_string(c.spy.live.size()) + " ";
-      c.spy.fail.clear(); c.spy.fail_from = -1;
-      for (size_t i = 0; i < nd; i++) {
-        (*c.docs[i])["k"] = "v";
-        if ((*c.docs[i])["k"] != "v" || c.docs[i]->overflowed()) out += "NOT-REUSABLE ";
-      }
-      c.docs.clear();
-    }
-    out += "leaked=" + std::to_string(c.spy.live.size()) + (c.spy.misuse ? " MISUSE" : "") + " calls=" + std::to_string(c.spy.calls);
-    return out;
+    size_t p = line.find(' ');
+    for (int k = 0; k < 3; k++) p = line.find(' ', p + 1);
+    return runHistory(std::stoul(a0[1]), std::stoi(a0[2]), a0[3], line.substr(p + 1), false, nullptr, 0);
   }
   return "?";
 }
@@ -191,3 +216,4 @@ int main() {
   }
   return 0;
 }
+#endif
